@@ -129,7 +129,7 @@ def valsStr (m : Vals) : String :=
 /-- the ways a request delivers its body; none of them is visible to binding (`BodyCarrier.content`) -/
 def parseCarrier (carrier body : String) : Option (Bytes → BodyCarrier) :=
   if carrier = "nobody" then (if body = "-" then some (fun _ => .noBody) else none)
-  else if ["rd", "nop", "newreq", "wire"].contains carrier then some .reader
+  else if ["rd", "nop", "newreq", "wire", "chunk"].contains carrier then some .reader
   else none
 
 /-- the `bind` op (fields after the op name); `carry` says how the body bytes are delivered -/
